@@ -333,6 +333,10 @@ class TorState(object):
             self._network_status_parser.feed_line,
         )
         self._network_status_parser.done()
+        # as _update_network_status does: names that turned out to
+        # have dups can't be looked up
+        for name in [k for (k, v) in self.routers.items() if v is None]:
+            del self.routers[name]
 
         # update list of existing circuits
         cs = yield self.protocol.get_info_raw('circuit-status')
